@@ -5,7 +5,7 @@
    Layer (b), the compilation of a conformed tree to SQLAlchemy and its evaluation by SQLite, is
    validated per run against a real database (both physical scan orders); it is modelled, not
    proved (see MANIFEST / DESIGN). *)
-From DR Require Import Model.Reach Proofs.SemLaws Proofs.SqlRules.
+From DR Require Import Model.Reach Proofs.SemLaws Proofs.SqlRules Proofs.SqlBinary Proofs.SqlBuild.
 Local Open Scope Z_scope.
 
 (* Select.apply_skip: marker, skip target and target chain agree, and denote the recorded slots *)
@@ -26,6 +26,32 @@ Proof. intros env s o s'. exact (append_unary_sel_sound env s o s'). Qed.
 Theorem C02_marker_denotes_slots : forall env sl skip tgt,
   good_sel env (SelM sl skip tgt) -> sem_tree env (SelM sl skip tgt) = slots_sem sl (sem_tree env skip).
 Proof. exact good_sel_sem. Qed.
+
+(* the binary rules: UNION ALL of two conformed relations (operands with a slice are nested first) *)
+Theorem C02_chain_rule_sound : forall env cf l r s,
+  good_all env l -> good_all env r -> columns l = columns r -> engine_of l = engine_of r ->
+  append_binary_sel_with cf BChain l r = Ok s ->
+  good_all env s /\ sem_tree env s = (sem_tree env l ++ sem_tree env r)%list /\ columns s = columns l /\ engine_of s = engine_of l.
+Proof. exact append_chain_sound. Qed.
+
+(* joins: the markers of both operands are stripped where that is safe (no hidden column collides with a column
+   of the other operand) and the projection is re-applied outside.  Operands with at least one column: the
+   join-identity elision (and its re-entry into conform) is decided by the correspondence run only. *)
+Theorem C02_join_rule_sound : forall env cf p c l r s,
+  good_all env l -> good_all env r -> engine_of l = engine_of r ->
+  c ⊆ columns l -> c ⊆ columns r -> cols_p p ⊆ columns l ∪ columns r -> columns l <> ∅ -> columns r <> ∅ ->
+  append_binary_sel_with cf (BJoin p c) l r = Ok s ->
+  good_all env s /\ sem_tree env s = sem_join c p (sem_tree env l) (sem_tree env r) /\
+  columns s = columns l ∪ columns r /\ engine_of s = engine_of l.
+Proof. exact append_join_sound. Qed.
+
+(* whole programs: every relation a single-engine SQL program of factory calls (leaves, all unary operations,
+   __getitem__, chains, natural joins with a predicate, materializations) returns is conformed and denotes the
+   specification of the program — the rows, in order, of direct evaluation. *)
+Theorem C02_sql_program_denotes_its_specification : forall env e0, ekind_of e0 = KSql ->
+  forall p t, sqlprog_ok env e0 p -> build_multi p = Ok t ->
+  good_all env t /\ sem_tree env t = spec_mprog env p /\ columns t = mprog_cols p /\ engine_of t = e0.
+Proof. exact build_sql_built. Qed.
 
 Example C02_nonvacuous :
   let leaf := Leaf 1 (Eng KSql 0) (mkset [2; 4]%positive) 0 None in
